@@ -505,6 +505,18 @@ def emit_digest():
                 except Exception as exc:  # noqa: BLE001 - a refusal must be the same refusal under every seed
                     h.update(type(exc).__name__.encode())
                 n += 1
+    # fixed-offset tzinfo objects (no zone id of their own): every quarter-hour offset from -12:00 to +14:00
+    import dateutil.tz
+    for minutes in range(-12 * 60, 14 * 60 + 1, 15):
+        for mk in (lambda m: timezone(timedelta(minutes=m)), lambda m: dateutil.tz.tzoffset(None, m * 60)):
+            e3 = Event()
+            try:
+                e3.add("dtstart", datetime(2024, 5, 6, 9, 0, tzinfo=mk(minutes)))
+                e3.add("rdate", [datetime(2024, 5, 7, 9, 0, tzinfo=mk(minutes))])
+                h.update(e3.to_ical())
+            except Exception as exc:  # noqa: BLE001
+                h.update(type(exc).__name__.encode())
+            n += 1
     print(h.hexdigest(), n)
 
 
